@@ -8,6 +8,7 @@ constant specific yield sigma (a storm of total depth D raises the level by
 D / sigma).  Every recession interval of the record is a piece of the curve,
 every storm follows the storage curve.
 """
+import math
 import os
 import sqlite3
 from fractions import Fraction
@@ -21,7 +22,13 @@ ODD_STEPS = [3900, 100, 90, 460]
 GRID_STEPS = [0.5, 1.0, 2.0, 2.5]
 
 
-def make_plan(rng, n_events=None, step=None, grid_step=None, varying_et=True, noise=False, gaps=False, odd_steps=False):
+def make_plan(rng, n_events=None, step=None, grid_step=None, varying_et=True, noise=False, gaps=False, odd_steps=False,
+              tie_top=False, light_equal=False):
+    """tie_top: two recessions start from exactly the same highest level of the record (two events share the
+    minimal m_after).  light_equal: the light-rain step after each storm has an intensity exactly EQUAL to the
+    storm threshold (which is then a short dyadic number, so that the text files, SQLite and the command line
+    all carry the very same binary64); "heavier than the threshold" is strict, so the planted truth is the same.
+    Both default to off; they draw random numbers only when on, after every other draw."""
     step = step or rng.choice(STEPS + ODD_STEPS if odd_steps else STEPS)
     step_h = step / 3600.0
     sigma = rng.choice([0.25, 0.5, 0.125])
@@ -54,11 +61,39 @@ def make_plan(rng, n_events=None, step=None, grid_step=None, varying_et=True, no
             e = rng.choice(cands)
             j = rng.randrange(3, events[e]['rec_len'] - 3)
             gap = (e, j, rng.randrange(1, 3))
-    return dict(step=step, sigma=sigma, thr_j=thr_j, lattice=lattice, events=events,
+    plan = dict(step=step, sigma=sigma, thr_j=thr_j, lattice=lattice, events=events,
                 t0=rng.choice([1361318400, 1356998400, 946684800]) // step * step,
                 grid_step=grid_step or rng.choice(GRID_STEPS), et=et,
                 lead_dry=rng.randrange(1, 4), step_h=step_h, gap=gap,
                 noise=[rng.randrange(-4, 5) / 64.0 if noise else 0.0 for _ in range(600)])
+    if tie_top and len(events) >= 2:
+        tie_top_events(rng, events, M)
+        plan['tie_top'] = True
+        if plan['gap'] is not None and plan['gap'][1] >= events[plan['gap'][0]]['rec_len'] - 3:
+            plan['gap'] = None                    # (the recession it was planned in has been cut short)
+    if light_equal:
+        plan['light_equal'] = True
+    return plan
+
+
+def tie_top_events(rng, events, M):
+    """Re-chain the events so that two of them bring the level back to exactly the same, highest, lattice level
+    (everything else about them - steps, overshoot, length of the recession - is kept)."""
+    mm = min(ev['m_after'] for ev in events)
+    e_top = [i for i, ev in enumerate(events) if ev['m_after'] == mm][0]
+    j = rng.choice([i for i in range(len(events)) if i != e_top])
+    m = events[0]['m_before']
+    for i, ev in enumerate(events):
+        back = max(3, ev['m_before'] - ev['m_after'])
+        ev['m_before'] = m
+        if i in (e_top, j):
+            ev['m_after'] = mm
+        elif i < min(e_top, j):
+            pass                                  # untouched prefix (m_after >= mm there)
+        else:
+            ev['m_after'] = max(mm + 1, m - back)
+        ev['rec_len'] = max(1, min(ev['rec_len'], M - ev['m_after']))
+        m = ev['m_after'] + ev['rec_len']
 
 
 def realise(plan):
@@ -104,6 +139,11 @@ def realise(plan):
             zeta.append(L[ev['m_after'] + j] + nz[len(zeta) % len(nz)])
         pieces.append(dict(first=first, last=len(zeta) - 1, m0=ev['m_after']))
     thr_s = min(heavy) / 2.0
+    if plan.get('light_equal'):
+        # threshold on a 1/64 lattice (min(heavy) > 0.3): its decimal form is short, so every parser involved
+        # (Python's, SQLite's) yields the same binary64, and the light steps are EXACTLY the threshold
+        thr_s = math.floor(thr_s * 64.0) / 64.0
+        rain = [thr_s if r is None else r for r in rain]
     rain = [thr_s / 4.0 if r is None else r for r in rain]
     # the last sample has no rainfall step after it inside the span: rain list has len(zeta)-1 .. pad one dry step
     while len(rain) < len(zeta):
@@ -167,7 +207,7 @@ def build_from_plan(prop, plan, steps=('rise', 'recession'), ref=None, shift=0, 
     if exc is not None:
         res.update(status='load-fail', exc=exc)
         return res
-    cmds = [('classify', ['classify', db, '-s', thr_s, '-j', plan['thr_j']]),
+    cmds = [('classify', ['classify', db, '-s', repr(float(thr_s)), '-j', repr(float(plan['thr_j']))]),
             ('grid', ['set-zeta-grid', db, '-d', plan['grid_step']])]
     for s in steps:
         if s == 'rise':
